@@ -45,6 +45,11 @@ def _worker_verify(job):
         import contracts
         v = contracts.make_verifier(seed=seed, timeout_ms=timeout_ms)
         try:
+            hp = os.path.join(HOME, 'baseline', 'hints.json')
+            v.stage_hints = json.load(open(hp)).get(os.environ.get('VERIF_PROP', ''), {}) if os.path.exists(hp) else {}
+        except Exception:
+            v.stage_hints = {}
+        try:
             if kind == 'function':
                 out['info'] = v.verify_function(name)
             else:
@@ -123,6 +128,7 @@ def main(argv=None):
 
     timeout_ms = 20000 if tier == 'quick' else 60000
     os.environ['VERIF_TIER_EFFECTIVE'] = tier          # workers: thorough = every z3 proof is also offered to cvc5
+    os.environ['VERIF_PROP'] = prop
     def expand(kind, name):
         n = contracts.parallel_parts(kind, name)
         return [(kind, name, seed, timeout_ms, k, n) for k in range(n)]
@@ -178,6 +184,13 @@ def main(argv=None):
             baseline[prop] = names
             os.makedirs(os.path.dirname(base_path), exist_ok=True)
             json.dump(baseline, open(base_path, 'w'), indent=1, sort_keys=True)
+            # ordering hints for the discharge ladder (which late stage discharged an obligation): speed only
+            hp = os.path.join(HOME, 'baseline', 'hints.json')
+            hints = json.load(open(hp)) if os.path.exists(hp) else {}
+            hints[prop] = {n: sorted({o['backend'] for o in obs if (o['backend'] or '').startswith('z3/instantiated')})
+                           for n, obs in obligations.items()
+                           if any((o['backend'] or '').startswith('z3/instantiated') for o in obs)}
+            json.dump(hints, open(hp, 'w'), indent=1, sort_keys=True)
             print("baseline for %s: %d obligation names" % (prop, len(names)))
     expected = baseline.get(prop)
 
@@ -231,6 +244,18 @@ def main(argv=None):
             rep = contracts.replay_obligation(prop, n, bad, tier=tier, seed=seed)
         except Exception:
             rec['replay_error'] = traceback.format_exc()
+        if not (rep and rep.get('failing_input_found')):
+            # no native input from the solver's model: the directed native search of this property (its bounded
+            # companion, run on the same tree in this very check) may have found one
+            for nres in native:
+                for vio in nres.get('violations', []):
+                    if vio.get('failing_input_found'):
+                        rep = {'failing_input_found': True, 'source': "bounded companion of this property (directed native "
+                               "search on the same tree), not the solver's counterexample", 'via': vio.get('name'),
+                               'what': (vio.get('what') or [])[:2], 'solver_side': rep}
+                        break
+                if rep and rep.get('failing_input_found'):
+                    break
         rec['replayed'] = rep
         json.dump(rec, open(os.path.join(HOME, rp), 'w'), indent=1, default=str)
         if rep and rep.get('failing_input_found'):
@@ -244,7 +269,7 @@ def main(argv=None):
             known_lines.append("KNOWN-FINDING: property=%s %s" % (prop, kf))
         for vio in nres.get('violations', []):
             rp = os.path.join('replays', prop, slug(vio['name']) + '.json')
-            json.dump(vio, open(os.path.join(HOME, rp), 'w'), indent=1, default=str)
+            json.dump(dict(vio, property=prop, tier=tier, seed=seed), open(os.path.join(HOME, rp), 'w'), indent=1, default=str)
             violations.append("VIOLATION property=%s replay=%s" % (prop, rp))
         for pb in nres.get('problems', []):
             checker_problems.append(pb)
@@ -305,7 +330,8 @@ def main(argv=None):
             coverage['exhaustive'] = True
     evidence = {
         'property_id': prop, 'tier': tier, 'seed': seed, 'level': level, 'coverage': coverage,
-        'assumptions': assumptions + plan.get('notes', []),
+        'assumptions': ["%s: %s" % (a_, contracts.ASSUMPTION_TEXT[a_]) if a_ in getattr(contracts, 'ASSUMPTION_TEXT', {}) else a_
+                        for a_ in assumptions] + plan.get('notes', []),
         'wall_s': round(time.time() - t_start, 2), 'violations': len(violations),
     }
     os.makedirs(os.path.join(HOME, 'evidence'), exist_ok=True)
